@@ -60,6 +60,7 @@ pub fn run(args: &[String]) {
     quiet_panics();
     let sub = args.first().map(|s| s.as_str()).unwrap_or("");
     match sub {
+        "unlisted-probe" => unlisted_probe(),
         "registry" => {
             for (l, t) in hook::registry() {
                 println!("reg {} {}", l, t);
@@ -258,4 +259,67 @@ pub fn run(args: &[String]) {
             std::process::exit(2);
         }
     }
+}
+
+/// Metamorphic probe: a feature record that the SELECTED language system does not list has no effect - not even through a
+/// shaper that asks "does the font have feature X" to decide about its stages (the Arabic shaper pauses after `calt`
+/// unless `rclt` is there).  Fonts in pairs that differ only in such an unlisted record; the two must shape alike.
+/// lookup 0 (liga) and lookup 1 (calt) both rewrite BEH, so the order of the stages shows in the output.
+fn unlisted_probe() {
+    use crate::fontgen::*;
+    let beh = 0x0628u32;
+    let mk = |variant: u32, with_unlisted: bool| -> Vec<u8> {
+        let mut spec = FontSpec::basic(8);
+        spec.cmap = vec![(0x61, 5), (beh, 1)];
+        let l0 = Lookup::one(SubstSubtable::Single2 { coverage: Coverage::Glyphs(vec![1]), substitutes: vec![2] });
+        let l1 = Lookup::one(SubstSubtable::Single2 { coverage: Coverage::Glyphs(vec![1]), substitutes: vec![3] });
+        let l2 = Lookup::one(SubstSubtable::Single2 { coverage: Coverage::Glyphs(vec![7]), substitutes: vec![6] });
+        // feature records sorted by tag: calt(0) liga(1) rclt(2)
+        // the font of the pair "without" has no rclt record at all; the font "with" has one that the selected language
+        // system does not list
+        let mut feats = vec![(*b"calt", vec![1u16]), (*b"liga", vec![0])];
+        if with_unlisted {
+            feats.push((*b"rclt", vec![2]));
+        }
+        let mut layout = Layout::with_features(feats, vec![l0, l1, l2]);
+        let ls = |v: &[u16]| LangSys { required_feature: None, feature_indices: v.to_vec() };
+        layout.scripts = match variant {
+            // rclt listed under another script only
+            0 => vec![ScriptRecord { tag: *b"arab", default_langsys: Some(ls(&[0, 1])), langsys: vec![] }, ScriptRecord { tag: *b"latn", default_langsys: Some(ls(if with_unlisted { &[2] } else { &[] })), langsys: vec![] }],
+            // rclt listed in the default language system, not in the selected one (URD)
+            _ => vec![ScriptRecord { tag: *b"arab", default_langsys: Some(ls(if with_unlisted { &[0, 1, 2] } else { &[0, 1] })), langsys: vec![(*b"URD ", ls(&[0, 1]))] }],
+        };
+        spec.gsub = Some(layout);
+        build(&spec)
+    };
+    let mut bad = 0;
+    let mut n = 0;
+    for (variant, langs) in [(0u32, vec![None, Some("fa")]), (1, vec![Some("ur"), Some("UR-pk"), Some("x-hbotURD")])] {
+        for lang in langs {
+            let shape = |data: &[u8]| -> Result<Vec<u32>, String> {
+                let d = data.to_vec();
+                let l = lang.map(|x| x.to_string());
+                catch(move || {
+                    let face = rustybuzz::Face::from_slice(&d, 0).unwrap();
+                    let mut b = rustybuzz::UnicodeBuffer::new();
+                    b.push_str("\u{0628}");
+                    b.set_script(rustybuzz::script::ARABIC);
+                    b.set_direction(rustybuzz::Direction::RightToLeft);
+                    if let Some(l) = &l {
+                        if let Ok(x) = std::str::FromStr::from_str(l) {
+                            b.set_language(x);
+                        }
+                    }
+                    rustybuzz::shape(&face, &[], b).glyph_infos().iter().map(|i| i.glyph_id).collect()
+                })
+            };
+            let (a, b) = (shape(&mk(variant, true)), shape(&mk(variant, false)));
+            n += 1;
+            if a != b {
+                bad += 1;
+                println!("unlisted-probe differ variant={} lang={:?} with_unlisted_rclt={:?} without={:?}", variant, lang, a, b);
+            }
+        }
+    }
+    println!("unlisted-probe cases={} bad={}", n, bad);
 }
